@@ -126,6 +126,23 @@ pub struct Trace {
     pub outs: Vec<String>,
 }
 
+/// Profiles that run on the implementation ONLY: their op lines stand for inputs far too large for the line protocol (a
+/// 1.2 GB message), so they are never piped to the Lean driver and no correspondence is claimed for them; the statement they
+/// reproduce is proved on the Lean side separately. Their cases are counted in `impl_only_cases` of the result file.
+pub const IMPL_ONLY_PROFILES: &[&str] = &["rn-known"];
+
+pub fn impl_only(profile: &str) -> bool {
+    IMPL_ONLY_PROFILES.contains(&profile)
+}
+
+/// Failure classes whose verdict rests on a script's promise about the whole trace (`note healed`: "a lossless phase long
+/// enough for the backlog has just ended"). Deleting ops from such a trace (deliveries, flushes, or a send that shifts the
+/// indices the deliveries refer to) breaks the promise and makes the oracle "fail" on correct code, so these failures are
+/// reported with the unshrunk trace.
+pub fn liveness_signature(sig: &str) -> bool {
+    sig.ends_with("-after-heal")
+}
+
 /// Execute a list of ops on a fresh implementation world. A Rust unwind is the output `panic`;
 /// after a panic the remaining ops are still executed (the world may be poisoned; outputs are
 /// whatever it answers) so that traces stay aligned.
